@@ -8,7 +8,7 @@ import zipfile
 from harness.common import enc, enc_ints, enc_list
 
 ID = "C06"
-LEAN_MODULES = ["PptxModel.Props.C06", "PptxModel.Props.C06L"]
+LEAN_MODULES = ["PptxModel.Props.C06", "PptxModel.Props.C06L", "PptxModel.Props.C06S"]
 RULE = (
     "shape ids: slides pre-populated with seeded id populations (gaps, ids up to 2^31, duplicates, non-numeric @id on "
     "a:fld) then seeded addition sequences of every shape kind at slide level, inside nested groups (to depth 3), group "
